@@ -483,6 +483,21 @@ where
     env.client("smile/client/reader", &sbase, || smile::client_from_reader::<_, T>(&out[..]).map_err(|e| e.to_string()));
 }
 
+fn gen_outer(r: &mut Rng) -> Outer {
+    let d = r.below(4);
+    Outer {
+        inner: gen_rec2(r, d),
+        items: (0..r.below(3)).map(|_| gen_rec2(r, d)).collect(),
+        maybe: if r.bool() { Some(gen_rec2(r, d)) } else { None },
+        by_key: (0..r.below(3)).map(|_| (DoubleKey(vcore::text::hostile_f64(r)), gen_rec2(r, d))).collect(),
+        alias: Wrap2(gen_rec2(r, d)),
+        empty: Empty {},
+        empties: (0..r.below(3)).map(|_| Empty {}).collect(),
+        maybe_empty: if r.bool() { Some(Empty {}) } else { None },
+        single: Single { only: if r.bool() { Some(Empty {}) } else { None } },
+    }
+}
+
 pub fn run(ctx: &Ctx, report: &mut Report) {
     let depth = if ctx.thorough { 8 } else { 6 };
     ctx.cases(report, "trees", ctx.n(40_000, 2_000_000), |seed, rep| {
@@ -513,22 +528,45 @@ pub fn run(ctx: &Ctx, report: &mut Report) {
         rec_paths(&n, &[], &mut vec![], &mut positions);
         run_one(rep, "trees", seed, &mut r, &n, positions);
     });
+    // ---- the document root itself is an optional / list / map / newtype of the object (no enclosing object)
+    ctx.cases(report, "roots", ctx.n(12_000, 600_000), |seed, rep| {
+        let mut r = Rng::new(seed);
+        let o = gen_outer(&mut r);
+        let prefixed = |o: &Outer, prefix: &[Step], root: &'static str| -> Vec<Pos> {
+            outer_paths(o)
+                .into_iter()
+                .map(|p| Pos { path: with(prefix, &p.path), chain: std::iter::once(root).chain(p.chain.into_iter().filter(|c| *c != "root")).collect() })
+                .collect()
+        };
+        match r.below(5) {
+            0 => {
+                let pos = prefixed(&o, &[], "root-option");
+                run_one(rep, "roots", seed, &mut r, &Some(o), pos);
+            }
+            1 => {
+                let pos = prefixed(&o, &[Step::Idx(1)], "root-list");
+                let first = gen_outer(&mut r);
+                run_one(rep, "roots", seed, &mut r, &vec![first, o], pos);
+            }
+            2 => {
+                let pos = prefixed(&o, &[Step::Member(0)], "root-map");
+                let m: std::collections::BTreeMap<String, Outer> = [("k".to_string(), o)].into_iter().collect();
+                run_one(rep, "roots", seed, &mut r, &m, pos);
+            }
+            3 => {
+                let pos = prefixed(&o, &[Step::Idx(0)], "root-option-list");
+                run_one(rep, "roots", seed, &mut r, &Some(vec![o]), pos);
+            }
+            _ => {
+                let pos = prefixed(&o, &[Step::Member(0)], "root-map-f64");
+                let m: std::collections::BTreeMap<DoubleKey, Option<Outer>> = [(DoubleKey(vcore::text::hostile_f64(&mut r)), Some(o))].into_iter().collect();
+                run_one(rep, "roots", seed, &mut r, &m, pos);
+            }
+        }
+    });
     ctx.cases(report, "direct", ctx.n(20_000, 1_000_000), |seed, rep| {
         let mut r = Rng::new(seed);
-        let d = r.below(4);
-        let o = Outer {
-            inner: gen_rec2(&mut r, d),
-            items: (0..r.below(3)).map(|_| gen_rec2(&mut r, d)).collect(),
-            maybe: if r.bool() { Some(gen_rec2(&mut r, d)) } else { None },
-            by_key: (0..r.below(3))
-                .map(|_| (DoubleKey(vcore::text::hostile_f64(&mut r)), gen_rec2(&mut r, d)))
-                .collect(),
-            alias: Wrap2(gen_rec2(&mut r, d)),
-            empty: Empty {},
-            empties: (0..r.below(3)).map(|_| Empty {}).collect(),
-            maybe_empty: if r.bool() { Some(Empty {}) } else { None },
-            single: Single { only: if r.bool() { Some(Empty {}) } else { None } },
-        };
+        let o = gen_outer(&mut r);
         let positions = outer_paths(&o);
         run_one(rep, "direct", seed, &mut r, &o, positions);
     });
